@@ -586,6 +586,10 @@ def cases_for(prop, tier):
     if prop == "C08":
         cs += [Case(f"AXILiteCrossbar({nm}x{ns})", c_axil_xbar, nm, ns) for nm, ns in ((2, 2), (2, 3), (3, 2))]
         if tier == "thorough": cs += [Case(f"AXILiteCrossbar({nm}x{ns})", c_axil_xbar, nm, ns) for nm, ns in ((3, 3), (1, 3), (3, 1))]
+        # the shared interconnects in their time-out configuration are C08 objects too (routing, locking, exactly-once, every master served): the two
+        # cases without finding clauses are registered under both properties
+        cs += [Case("AXILiteInterconnectShared(3x2,timeout=8,no-finding-clauses)", c_axi_shared_to, "lite", 3, 2, 8, 1, False, timeout=LIM),
+               Case("AXIInterconnectShared(2x3,timeout=8,id_width=1,no-finding-clauses)", c_axi_shared_to, "full", 2, 3, 8, 1, False, timeout=LIM)]
     if prop == "C11":
         cs.append(Case("AXILiteCrossbar(2x2,timeout=4)", c_axil_xbar_timeout, 2, 2, 4))
         cs += [Case("AXILiteInterconnectShared(2x2,timeout=4)", c_axi_shared_to, "lite", 2, 2, 4, timeout=LIM),
